@@ -283,6 +283,39 @@ func runC13(c *core.Ctx) {
 
 	for i := 0; i < nBase; i++ {
 		t := c13Trip(r, zones)
+		if i%16 == 15 {
+			// size thresholds: long adjacent strings with the boundary shifted, many stop time updates
+			n := core.Pick(r, []int{255, 256, 257, 1023, 1024, 1025, 1100, 4097})
+			long := strings.Repeat("x", n)
+			t.ID.ID, t.ID.RouteID = long+"ab", long+"cd"
+			m := DeepCopy(t)
+			m.ID.ID, m.ID.RouteID = long+"abx", long[1:]+"cd"
+			hashTrip(m, "long-string-boundary-shift@ID|RouteID")
+			m2 := DeepCopy(t)
+			m2.ID.ID, m2.ID.RouteID = long+"a", "b"+long+"cd"
+			hashTrip(m2, "long-string-boundary-shift@ID|RouteID")
+			if len(t.StopTimeUpdates) > 0 {
+				for len(t.StopTimeUpdates) < n%300+130 {
+					t.StopTimeUpdates = append(t.StopTimeUpdates, t.StopTimeUpdates[r.Intn(len(t.StopTimeUpdates))])
+				}
+				// targeted changes deep inside the long list (no full mutant closure for long values)
+				for _, k := range []int{0, 63, 64, 127, 128, len(t.StopTimeUpdates) - 1} {
+					if k < len(t.StopTimeUpdates) {
+						m3 := DeepCopy(t)
+						s := "changed"
+						m3.StopTimeUpdates[k].StopID = &s
+						hashTrip(m3, "stop-id-changed-deep-in-long-list")
+						m4 := DeepCopy(t)
+						m4.StopTimeUpdates = append(m4.StopTimeUpdates[:k:k], m4.StopTimeUpdates[k+1:]...)
+						hashTrip(m4, "update-removed-deep-in-long-list")
+					}
+				}
+			}
+			c.Feature("long-strings-and-many-updates")
+			hashTrip(t, "base-long")
+			c.Shape(fmt.Sprintf("long strings=%d updates=%d", n, len(t.StopTimeUpdates)))
+			continue
+		}
 		key := canon.Dump(t, c13KeyOpts)
 		c.Shape(c13Shape("T", key))
 		if i == 0 && c.WantSample() {
@@ -343,6 +376,19 @@ func runC13(c *core.Ctx) {
 		for j, m := range ms {
 			hashVehicle(m, infos[j].Kind+"@"+infos[j].Path)
 			c.Feature("vehicle-mutant:" + infos[j].Kind)
+		}
+		if v.ID != nil && i%16 == 15 {
+			n := core.Pick(r, []int{255, 256, 257, 1023, 1024, 1025, 1100, 4097})
+			long := strings.Repeat("y", n)
+			a := DeepCopy(v)
+			a.ID.ID, a.ID.Label, a.ID.LicensePlate = long+"ab", long+"cd", long
+			b := DeepCopy(a)
+			b.ID.ID, b.ID.Label = long+"a", "b"+long+"cd"
+			d := DeepCopy(a)
+			d.ID.Label, d.ID.LicensePlate = long+"cd"+long[:1], long[1:]
+			hashVehicle(a, "long-strings")
+			hashVehicle(b, "long-string-boundary-shift@ID|Label")
+			hashVehicle(d, "long-string-boundary-shift@Label|LicensePlate")
 		}
 		if v.ID != nil && len(v.ID.ID) > 0 {
 			m := DeepCopy(v)
